@@ -23,3 +23,4 @@ CFG = {'level': 'exploration',
  'assumptions': ['SHA-256 collisions do not occur']}
 CFG['level_text'] += ' Mutated JSON texts of hashes and tree heads whose first line merely starts with the prescribed one must be rejected or mean exactly what they say; appends through stores that reply with the wrong number of hashes must fail or still give the true hashes.'
 CFG['level_text'] += ' JSON texts are decoded into a receiver that already holds a hash, which must be unchanged when the text is rejected.'
+CFG['level_text'] += ' After each tree head, the other head of a fork (same size, one bit of the hash changed) is encoded and decoded, and the first is encoded again.'
